@@ -12,7 +12,6 @@ INVARIANT ExactRouting
 INVARIANT ExactSinks
 INVARIANT ComlogNeverInMainFile
 INVARIANT ComlogOnceInComlogFile
-INVARIANT RetentionOK
 PROPERTY Isolation
 PROPERTY ResetClears
 CHECK_DEADLOCK FALSE
